@@ -130,7 +130,9 @@ Inductive aop :=
 | AClear (i : nat) | AReset (i : nat) | ADetach (i : nat)
 | AReserve (i n : nat) (init : bool)
 | AResize (i n : nat) | AResizeInit (i n : nat)
-| AExpect (i n : nat) | ACompress (i : nat) | ADrop (i n : nat).
+| AExpect (i n : nat) | ACompress (i : nat) | ADrop (i n : nat)
+| ASwap (i k1 k2 : nat)                (* if k1, k2 < Size(): Swap(Storage()[k1], Storage()[k2]) *)
+| AIter (i : nat).                     (* range-for over begin() .. end(), const and non-const *)
 
 (* Array::resize: setCapacity; allocate; Memory::Copy(des, src, Size()); Deallocate(src) *)
 Definition arr_resize (w : world) (i new_cap : nat) : res world :=
@@ -246,6 +248,18 @@ Definition astep (w : world) (op : aop) : res (world * out) :=
       let o := ob w i in
       if n <=? size o then Ok (mkW (hp w) (upd (ob w) i (mkObj (blk o) (size o - n) (cap o))), ONone)
       else Ok (w, ONone)
+  | ASwap i k1 k2 =>
+      (* Memory::Swap: item = Move(item1); item1 = Move(item2); item2 = Move(item) *)
+      let o := ob w i in
+      if (k1 <? size o) && (k2 <? size o) then
+        x <- rd1 (hp w) (blk o) k1 ;;
+        y <- rd1 (hp w) (blk o) k2 ;;
+        h1 <- wr1 (hp w) (blk o) k1 y ;;
+        h2 <- wr1 h1 (blk o) k2 x ;;
+        Ok (mkW h2 (ob w), ONone)
+      else Ok (w, ONone)
+  | AIter i =>
+      c <- rd_range (hp w) (blk (ob w i)) 0 (size (ob w i)) ;; Ok (w, OStr c true)
   end.
 
 (* specification: plain lists *)
@@ -266,6 +280,10 @@ Definition aspec (s : nat -> list A) (op : aop) : (nat -> list A) * out :=
   | AExpect i n => (s, ONone)
   | ACompress i => (s, ONone)
   | ADrop i n => (if n <=? length (s i) then upd s i (firstn (length (s i) - n) (s i)) else s, ONone)
+  | ASwap i k1 k2 =>
+      (if (k1 <? length (s i)) && (k2 <? length (s i))
+       then upd s i (splice (splice (s i) k1 [nth k2 (s i) d]) k2 [nth k1 (s i) d]) else s, ONone)
+  | AIter i => (s, OStr (s i) true)
   end.
 
 (* operations whose C++ precondition is "two distinct objects" *)
@@ -362,7 +380,11 @@ Inductive sop :=
 | STrim (i j : nat)                    (* i = String::Trim(j) *)
 | SEqObj (i j : nat) | SEqCstr (i : nat) (l : list N) | SEqNull (i : nat) | SIsEqual (i : nat) (l : list N)
 | SReset (i : nat) | SDetach (i : nat)
-| SStepBack (i n : nat) | SReverse (i idx : nat) | SInsertAt (i : nat) (c : N) (idx : nat).
+| SStepBack (i n : nat) | SReverse (i idx : nat) | SInsertAt (i : nat) (c : N) (idx : nat)
+| SIter (i : nat)                      (* range-for over begin() .. end(), const and non-const *)
+| SLast (i : nat)                      (* Last(): nullptr or the last unit *)
+| SIsEmpty (i : nat)                   (* IsEmpty() / IsNotEmpty() *)
+| SStreamOut (i : nat).                (* sink << string (operator<<(Stream_T&, const String&)): a C-string insertion *)
 
 (* copyString: allocate(len + 1) (sets storage), Copy, terminator, setLength *)
 Definition s_copy_string (h : hN) (s : @src N) (len : nat) : res (hN * obj) :=
@@ -522,6 +544,18 @@ Definition sstep (w : wN) (op : sop) : res (wN * @out N) :=
         h1 <- wr_range (hp w) (blk o) 0 c' ;;
         w2 <- s_write (mkW h1 (ob w)) i (SExt [tmp]) 1 ;; Ok (w2, ONone)
       else Ok (w, ONone)
+  | SIter i => c <- rd_range (hp w) (blk (ob w i)) 0 (size (ob w i)) ;; Ok (w, OStr c true)
+  | SLast i =>
+      let o := ob w i in
+      c <- rd_range (hp w) (blk o) (size o - 1) (if (size o =? 0)%nat then 0 else 1)%nat ;; Ok (w, OStr c true)
+  | SIsEmpty i => Ok (w, OBool (size (ob w i) =? 0)%nat)
+  | SStreamOut i =>
+      (* out << src.First(): the units up to the first NUL (nothing for the null storage) *)
+      let o := ob w i in
+      match blk o with
+      | None => Ok (w, OStr [] true)
+      | Some _ => c <- rd_range (hp w) (blk o) 0 (size o + 1) ;; Ok (w, OStr (firstn (cstr_len c) c) true)
+      end
   end.
 
 Definition sspec (s : nat -> list N) (op : sop) : (nat -> list N) * @out N :=
@@ -550,6 +584,10 @@ Definition sspec (s : nat -> list N) (op : sop) : (nat -> list N) * @out N :=
   | SStepBack i n => (if (n <=? length (s i))%nat then upd s i (firstn (length (s i) - n) (s i)) else s, ONone)
   | SReverse i idx => (upd s i (reverse_spec idx (s i)), ONone)
   | SInsertAt i c idx => (upd s i (insert_spec (s i) c idx), ONone)
+  | SIter i => (s, OStr (s i) true)
+  | SLast i => (s, OStr (skipn (length (s i) - 1) (s i)) true)
+  | SIsEmpty i => (s, OBool (length (s i) =? 0)%nat)
+  | SStreamOut i => (s, OStr (firstn (cstr_len (s i)) (s i)) true)
   end.
 
 Definition sop_ok (op : sop) : Prop :=
@@ -576,7 +614,9 @@ Inductive top :=
 | TSetLength (i n : nat) (c : N)       (* SetLength(n); the caller fills the new cells with c *)
 | TBuffer (i : nat) (l : list N)       (* p = Buffer(len); the caller writes l to p *)
 | TExpect (i n : nat) | TReserve (i n : nat)
-| TGetString (i : nat) | TGetStringView (i : nat) | TInsertNull (i : nat).
+| TGetString (i : nat) | TGetStringView (i : nat) | TInsertNull (i : nat)
+| TIter (i : nat)                      (* range-for over begin() .. end(), const and non-const *)
+| TStreamOut (i : nat).                (* sink << stream (operator<<(Stream_T&, const StringStream&)): unit by unit *)
 
 (* grow: allocate, relocate, return the old storage still allocated (D19 fix) *)
 Definition t_grow (w : wN) (i new_cap : nat) : res (wN * @ptr) :=
@@ -721,6 +761,7 @@ Definition tstep (w : wN) (op : top) : res (wN * @out N) :=
       t <- terminated (hp w1) (ob w1 i) ;;
       Ok (w1, OStr c t)
   | TInsertNull i => w1 <- t_insert_null w i ;; Ok (w1, ONone)
+  | TIter i | TStreamOut i => c <- rd_range (hp w) (blk (ob w i)) 0 (size (ob w i)) ;; Ok (w, OStr c true)
   end.
 
 Definition tspec (s : nat -> list N) (op : top) : (nat -> list N) * @out N :=
@@ -745,6 +786,7 @@ Definition tspec (s : nat -> list N) (op : top) : (nat -> list N) * @out N :=
   | TExpect i _ | TInsertNull i => (s, ONone)
   | TGetString i => (upd s i [], OStr (s i) true)
   | TGetStringView i => (s, OStr (s i) true)
+  | TIter i | TStreamOut i => (s, OStr (s i) true)
   end.
 
 Definition top_ok (op : top) : Prop :=
@@ -762,7 +804,10 @@ Inductive vop :=
 | VCopy (i j : nat)                    (* copy ctor / copy assignment *)
 | VMove (i j : nat)                    (* move ctor (i <> j) / move assignment *)
 | VReset (i : nat)
-| VEqObj (i j : nat) | VEqCstr (i : nat) (l : list N) | VIsEqual (i : nat) (l : list N).
+| VEqObj (i j : nat) | VEqCstr (i : nat) (l : list N) | VIsEqual (i : nat) (l : list N)
+| VIter (i : nat)                      (* range-for over begin() .. end() *)
+| VStreamOut (i : nat)                 (* sink << view (operator<<(Stream_T&, const StringView&)): unit by unit *)
+| VIsEmpty (i : nat).                  (* IsEmpty() / IsNotEmpty() *)
 
 Definition vstep (w : wN) (op : vop) : res (wN * @out N) :=
   match op with
@@ -786,6 +831,8 @@ Definition vstep (w : wN) (op : vop) : res (wN * @out N) :=
       else Ok (w, OBool false)
   | VEqCstr i l => b <- t_eq_ext w i (l ++ [0]) (cstr_len l) ;; Ok (w, OBool b)
   | VIsEqual i l => b <- t_eq_ext w i l (length l) ;; Ok (w, OBool b)
+  | VIter i | VStreamOut i => c <- rd_range (hp w) (blk (ob w i)) 0 (size (ob w i)) ;; Ok (w, OStr c true)
+  | VIsEmpty i => Ok (w, OBool (size (ob w i) =? 0)%nat)
   end.
 
 Definition vspec (s : nat -> list N) (op : vop) : (nat -> list N) * @out N :=
@@ -798,6 +845,8 @@ Definition vspec (s : nat -> list N) (op : vop) : (nat -> list N) * @out N :=
   | VEqObj i j => (s, OBool (list_eqb (s i) (s j)))
   | VEqCstr i l => (s, OBool (list_eqb (s i) (firstn (cstr_len l) l)))
   | VIsEqual i l => (s, OBool (list_eqb (s i) l))
+  | VIter i | VStreamOut i => (s, OStr (s i) true)
+  | VIsEmpty i => (s, OBool (length (s i) =? 0)%nat)
   end.
 
 (* ------------------------------------------------------------------ *)
